@@ -115,10 +115,18 @@ class Exec:
         outs = []
         for s1, vals in self.evs([v.value if isinstance(v, ast.FormattedValue) else v for v in e.values], st):
             if isinstance(vals, Raise): outs.append((s1, vals)); continue
-            if all(self._strlike(v) for v in vals):
+            def strable(v):
+                return self._strlike(v) or (isinstance(v, ZV) and v.kind == 'int') or (isinstance(v, PConst) and type(v.obj) is int)
+            def tostr(v):
+                if isinstance(v, ZV) and v.kind == 'int':
+                    # str() of an int: exact for non-negative values (z3's int.to.str); negative ints get a leading '-'
+                    return If(v.z >= 0, z3.IntToStr(v.z), Concat(StringVal('-'), z3.IntToStr(-v.z)))
+                if isinstance(v, PConst) and type(v.obj) is int: return StringVal(str(v.obj))
+                return self.as_str(s1, v)
+            if all(strable(v) for v in vals):
                 acc = None
                 for v in vals:
-                    z = self.as_str(s1, v); acc = z if acc is None else Concat(acc, z)
+                    z = tostr(v); acc = z if acc is None else Concat(acc, z)
                 outs.append((s1, ZV('str', acc if acc is not None else StringVal(''))))
             else:
                 outs.append((s1, ZV('str', fresh('fstr', StringSort()))))
@@ -594,6 +602,14 @@ class Exec:
             return [(st, Or(*[py_eq(iv, to_val(x, st)) for x in c.items]) if c.items else BoolVal(False))]
         if isinstance(c, ZV) and c.kind == 'val':
             outs = []
+            if isinstance(item, PConst) and isinstance(item.obj, str) or (isinstance(item, ZV) and item.kind == 'str'):
+                # `needle in x` with a string needle: substring test when x is a string
+                done = []
+                for s0, isstr in self.fork(st, Val.is_S(c.z), f'L{ln}.in_str'):
+                    if isstr: outs.append((s0, z3.Contains(Val.s(c.z), self.as_str(s0, item))))
+                    else: done.append(s0)
+                if not done: return outs
+                st = done[0]
             for s1, isfs in self.fork(st, Val.is_FS(c.z), f'L{ln}.in_set'):
                 if isfs: outs.extend(self.contains(s1, PSet(fs_c(Val.fk(c.z)), 'val'), item, ln))
                 else: outs.extend(self.contains(s1, PSeq(*seq_of(c, s1)), item, ln))
